@@ -149,3 +149,25 @@ func init() {
 	controlTable["np-nil"] = npCtl("NpNilBad", "NpNilGood")
 	controlTable["np-kind"] = npCtl("NpKindBad", "NpKindGood")
 }
+
+func init() {
+	controlTable["unit-mix"] = func(c *Ctx) (bool, string) {
+		fb, fg := c.Fn("UnitMixBad"), c.Fn("UnitMixGood")
+		if fb == nil || fg == nil {
+			return false, "control functions missing"
+		}
+		count := func(fn *ssa.Function) int {
+			r := NewReport("CTL")
+			r.Rule("UNIT", "", 0)
+			c.runUNIT(r, "UNIT", map[*ssa.Function]bool{fn: true}, nil)
+			n := 0
+			for _, o := range r.Obs {
+				if o.Status == Violated {
+					n++
+				}
+			}
+			return n
+		}
+		return count(fb) > 0 && count(fg) == 0, "UNIT verdicts wrong on controls"
+	}
+}
